@@ -13,7 +13,8 @@ from vlib.gen_expr import INT, BOOL, PICK
 
 PID = "C11"
 LEVEL = "exploration"
-RULE = ("Hypothesis generates memories: row shape unsigned 0..6 / signed 1..5 / ArrayLayout / StructLayout, depth 0..9 "
+RULE = ("Hypothesis generates memories: row shape unsigned 0..6 / signed 1..5 / ArrayLayout / StructLayout / Struct class with field defaults (rows the "
+        "initialiser does not list hold the defaults), depth 0..9 "
         "(incl. 0, 1, non-powers of two), partial initial contents, 0..3 write ports (domain a or b, granularity any "
         "divisor or None), 0..3 read ports (asynchronous, or synchronous in a or b with any subset of the same-domain "
         "write ports as transparency set); all port inputs are driven by the harness; addresses are biased to a window "
@@ -45,7 +46,22 @@ def draw_shape(draw):
         return ["s", draw(INT(1, 5))]
     if k <= 8:
         return ["array", draw(INT(1, 3)), draw(INT(1, 4))]
-    return ["struct", [draw(INT(1, 3)), draw(INT(0, 2)), draw(INT(1, 2))]]
+    ws = [draw(INT(1, 3)), draw(INT(0, 2)), draw(INT(1, 2))]
+    if draw(BOOL):
+        return ["struct", ws]
+    # a Struct class whose fields have default values: rows that the initialiser does not list hold the defaults
+    return ["structcls", ws, [draw(INT(0, (1 << w_) - 1)) if w_ else 0 for w_ in ws]]
+
+
+def default_row(sh):
+    """Bit pattern of a row that the initialiser does not list."""
+    if sh[0] != "structcls":
+        return 0
+    out, off = 0, 0
+    for w_, d_ in zip(sh[1], sh[2]):
+        out |= d_ << off
+        off += w_
+    return out
 
 
 def shape_width(sh):
@@ -58,6 +74,10 @@ def build_shape(sh):
     if sh[0] == "u": return unsigned(sh[1])
     if sh[0] == "s": return signed(sh[1])
     if sh[0] == "array": return data.ArrayLayout(unsigned(sh[1]), sh[2])
+    if sh[0] == "structcls":
+        ns = {"__annotations__": {f"f{i}": unsigned(w) for i, w in enumerate(sh[1])}}
+        ns.update({f"f{i}": d_ for i, d_ in enumerate(sh[2])})
+        return type("Row", (data.Struct,), ns)
     return data.StructLayout({f"f{i}": w for i, w in enumerate(sh[1])})
 
 
@@ -134,10 +154,11 @@ class Model:
         self.w = shape_width(case["shape"])
         self.depth = case["depth"]
         self.full = (1 << self.w) - 1
-        self.rows = [(case["init"][i] if i < len(case["init"]) else 0) for i in range(self.depth)]
+        self.rows = [(case["init"][i] if i < len(case["init"]) else default_row(case["shape"])) for i in range(self.depth)]
         self.rowx = [0] * self.depth
         self.wp = [{"addr": 0, "data": 0, "en": 0} for _ in case["wports"]]
-        self.rp = [{"addr": 0, "en": 1, "data": 0, "x": 0} for _ in case["rports"]]
+        # (the data signal of a read port has the row shape; before the first read it holds that shape's default value)
+        self.rp = [{"addr": 0, "en": 1, "data": default_row(case["shape"]), "x": 0} for _ in case["rports"]]
         self.case = case
 
     def wmask(self, i):
@@ -311,6 +332,8 @@ def mem_body(ctx, case):
     if fail:
         raise fail[0]
     keys = ["mem:shape-" + case["shape"][0], "mem:depth%d" % min(case["depth"], 3)]
+    if case["shape"][0] == "structcls" and default_row(case["shape"]) and len(case["init"]) < case["depth"]:
+        keys.append("mem:unlisted-rows-with-nonzero-class-defaults")
     keys += ["mem:" + k for k, v in stats.items() if v]
     if any(rp["transparent"] for rp in case["rports"]): keys.append("mem:transparency-set")
     if any(wp["gran"] is not None and wp["gbits"] < w for wp in case["wports"]): keys.append("mem:fine-granularity")
@@ -432,7 +455,8 @@ def parts(tier):
     ]
 
 
-REQUIRED = ["mem:shape-u", "mem:shape-s", "mem:shape-array", "mem:shape-struct", "mem:depth0", "mem:depth1", "mem:non-pow2-depth",
+REQUIRED = ["mem:shape-u", "mem:shape-s", "mem:shape-array", "mem:shape-struct", "mem:shape-structcls",
+            "mem:unlisted-rows-with-nonzero-class-defaults", "mem:depth0", "mem:depth1", "mem:non-pow2-depth",
             "mem:transparency-set", "mem:fine-granularity", "mem:async-read-port", "mem:collision", "mem:transparent_collision",
             "mem:opaque_collision", "mem:cross_domain_collision", "mem:write_beyond_depth", "mem:read_beyond_depth",
             "mem:partial_write", "mem:poke", "mem:coincident_edges", "mem:write_write_collision",
